@@ -65,8 +65,25 @@ func (p *evmprof) Configure(r *e.RNG, tier string) e.Config {
 	if r.Chance(0.5) {
 		c.Flags["fic_staked"] = 1 // the contracts hold stake and earn rewards themselves
 	}
+	if p.id == "C05" {
+		// disposable contracts that may self-destruct; few storage keys/values so that
+		// frames restore committed values
+		if r.Chance(0.5) {
+			c.Flags["victims"] = 2
+		}
+		if r.Chance(0.5) {
+			c.Flags["small_vals"] = 1
+		}
+	}
 	// fees are zero here, so only coinomics makes staking rewards non-zero
 	c.Coinomics = r.Chance(0.6)
+	// jail_bias: a validator misses most blocks and is jailed early, so that grants
+	// made afterwards do not name it; unlimited grants are frequent
+	if c.NVals >= 2 && r.Chance(0.25) {
+		c.Flags["jail_bias"] = 1
+		c.Flags["p_absent"] = 75
+		c.SlashWindow = 3
+	}
 	return c
 }
 
@@ -81,7 +98,10 @@ func (p *evmprof) Tier(tier string) (uint64, int64) {
 	if tier == "thorough" {
 		return 3000, 2400
 	}
-	return 160, 300
+	if p.id == "C05" {
+		return 240, 300 // three forked executions per program
+	}
+	return 400, 300
 }
 
 func (p *evmprof) MandatoryProbes() []string {
@@ -114,8 +134,42 @@ func (p *evmprof) Gen(w *e.World, r *e.RNG) e.Step {
 		return st
 	case 1:
 		fic := r.Intn(nFIC)
+		// grant-then-use: half of the programs run on the contract, and for the
+		// signer, of the most recent grant
+		if lg, ok := w.Ext["evm_last_grant"].([2]int); ok && r.Chance(0.5) {
+			signer, fic = lg[0], lg[1]
+		}
 		budget := 8
 		pr := Prog{FIC: fic, Gas: 6_000_000, Nodes: genProgram(w, r, signer, fic, 0, &budget)}
+		if nv := int(f["victims"]); nv > 0 && r.Chance(0.25) {
+			// the same disposable contract is destroyed in a frame that survives and
+			// once more in a frame that fails (in either order), among other work
+			v := nFIC + r.Intn(nv)
+			ben := fmt.Sprintf("acct:%d", w.AnyAcct(r))
+			kill := func() *evmprog.Node {
+				return &evmprog.Node{Kind: evmprog.OpCall, Target: fmt.Sprintf("fic:%d", v), Catch: true, Sub: []*evmprog.Node{{Kind: evmprog.OpSelfDestruct, Target: ben}}}
+			}
+			failing := &evmprog.Node{Kind: evmprog.OpCall, Target: fmt.Sprintf("fic:%d", r.Intn(nFIC)), Catch: true, Sub: []*evmprog.Node{kill(), {Kind: []int{evmprog.OpRevert, evmprog.OpInvalid}[r.Intn(2)]}}}
+			pat := []*evmprog.Node{kill(), failing}
+			if r.Chance(0.4) {
+				pat = []*evmprog.Node{failing, kill()}
+			}
+			if r.Chance(0.3) {
+				pat = append(pat, kill())
+			}
+			pr.Nodes = append(pat, pr.Nodes...)
+		}
+		if f["small_vals"] == 1 && r.Chance(0.25) {
+			// a surviving frame changes a slot, a failing re-entrant frame writes the
+			// value the slot had before the transaction
+			k := uint64(r.Intn(2))
+			cur := w.App().EvmKeeper.GetState(w.Ctx(), ew(w).fics[fic], common.BigToHash(new(big.Int).SetUint64(k))).Big().Uint64()
+			pat := []*evmprog.Node{
+				{Kind: evmprog.OpSStore, Key: k, Val: cur + 1 + uint64(r.Intn(2))},
+				{Kind: evmprog.OpCall, Target: fmt.Sprintf("fic:%d", fic), Catch: true, Sub: []*evmprog.Node{{Kind: evmprog.OpSStore, Key: k, Val: cur}, {Kind: []int{evmprog.OpRevert, evmprog.OpInvalid}[r.Intn(2)]}}},
+			}
+			pr.Nodes = append(pat, pr.Nodes...)
+		}
 		if f["no_precompile"] == 1 {
 			pr.Nodes = stripNodes(pr.Nodes, func(n *evmprog.Node) bool { return n.Call != nil })
 		}
@@ -140,12 +194,15 @@ func (p *evmprof) Gen(w *e.World, r *e.RNG) e.Step {
 	case 3:
 		// grant life cycle: approve / increase / decrease / revoke towards a FIC (or an account)
 		pc := &PCall{PC: "staking", M: []string{"approve", "approve", "increaseAllowance", "decreaseAllowance", "revoke"}[r.Intn(5)]}
-		pc.To = fmt.Sprintf("fic:%d", r.Intn(nFIC))
+		gf := r.Intn(nFIC)
+		pc.To = fmt.Sprintf("fic:%d", gf)
 		if r.Chance(0.1) {
 			pc.To = fmt.Sprintf("acct:%d", r.Intn(nAcc(w)))
+		} else {
+			w.Ext["evm_last_grant"] = [2]int{signer, gf}
 		}
 		amt := r.Amount(e.BigS("4000000000000000000"))
-		if r.Chance(0.15) {
+		if r.Chance(0.15) || (f["jail_bias"] == 1 && r.Chance(0.3)) {
 			amt = new(big.Int).Sub(new(big.Int).Lsh(big.NewInt(1), 256), big.NewInt(1)) // unlimited
 		}
 		pc.Amt = amt.String()
@@ -395,6 +452,10 @@ func (p *evmprof) c05Differential(w *e.World, signer *e.Account, pr *Prog) *e.Vi
 	}
 	var diff []string
 	for _, s := range e.DiffStoreNames(A.App, B.App) {
+		if s == "evm" && onlyZeroSlotArtefacts(e.DiffStoreEntries(A.App, B.App, "evm")) {
+			w.Stats.Probe("zero_slot_entry_vs_absent")
+			continue
+		}
 		if s != "feemarket" {
 			diff = append(diff, s)
 		}
@@ -423,6 +484,29 @@ func (p *evmprof) c05Differential(w *e.World, signer *e.Account, pr *Prog) *e.Vi
 	}
 	w.Stats.State(fmt.Sprintf("failed=%d,top=%v,pcInFailed=%d", ff.innerFailed, topFailed, len(ff.inFailedFrame)))
 	return nil
+}
+
+// onlyZeroSlotArtefacts: the EVM keeper stores a storage slot that was written
+// (flushed) and later set back to zero as an explicit all-zero entry, while a
+// slot that never reached the store has no entry. Both read as zero everywhere
+// (SLOAD, storage queries); the differential does not count that
+// representation difference as a trace of the failed frame.
+func onlyZeroSlotArtefacts(ds []e.KVDiff) bool {
+	isZero := func(b []byte) bool {
+		for _, x := range b {
+			if x != 0 {
+				return false
+			}
+		}
+		return true
+	}
+	for _, d := range ds {
+		storageKey := len(d.Key) == 1+20+32 && d.Key[0] == 0x02
+		if !storageKey || !((d.A == nil && isZero(d.B)) || (d.B == nil && isZero(d.A))) {
+			return false
+		}
+	}
+	return len(ds) > 0
 }
 
 func dumpFrames(frs []*evmprog.Frame, depth int) {
